@@ -33,7 +33,21 @@ type c15Item struct {
 	T       *c15T    `json:"type"`
 	Variant string   `json:"variant"` // minimal | redundant
 	Toks    []string `json:"toks"`
-	Text    string   `json:"text"` // the type expression as written in the source
+	Text    string   `json:"text"`          // the type expression as written in the source
+	Scn     string   `json:"scn,omitempty"` // scenario family: "" | shadow | fwd | inst
+	Arg     *c15T    `json:"arg,omitempty"` // inst: the explicit type argument substituted for T
+	ArgText string   `json:"arg_text,omitempty"`
+}
+
+// the prefix a position lets the source omit: names of the enclosing package_info block
+func c15Strip(pos string) string {
+	switch pos {
+	case "siglocal":
+		return "ext."
+	case "siglexer":
+		return "lexer."
+	}
+	return ""
 }
 
 func c15Base(n string) *c15T { return &c15T{K: "base", Name: n} }
@@ -72,7 +86,7 @@ func (t *c15T) size() int {
 }
 
 // tokens of the type at level lv (0 type, 1 arrow component, 2 tuple component / slice element)
-func (t *c15T) toks(lv int, local bool) []string {
+func (t *c15T) toks(lv int, strip string) []string {
 	var core []string
 	need := false
 	join := func(sep string, lvk int) {
@@ -80,7 +94,7 @@ func (t *c15T) toks(lv int, local bool) []string {
 			if i > 0 {
 				core = append(core, sep)
 			}
-			core = append(core, k.toks(lvk, local)...)
+			core = append(core, k.toks(lvk, strip)...)
 		}
 	}
 	switch t.K {
@@ -89,7 +103,7 @@ func (t *c15T) toks(lv int, local bool) []string {
 	case "unit":
 		core = []string{"(", ")"}
 	case "slice":
-		core = append([]string{"[", "]"}, t.Kids[0].toks(2, local)...)
+		core = append([]string{"[", "]"}, t.Kids[0].toks(2, strip)...)
 	case "tuple":
 		need = lv >= 2
 		join("*", 2)
@@ -98,8 +112,8 @@ func (t *c15T) toks(lv int, local bool) []string {
 		join("->", 1)
 	case "named":
 		name := t.Name
-		if local {
-			name = strings.TrimPrefix(name, "ext.")
+		if strip != "" {
+			name = strings.TrimPrefix(name, strip)
 		}
 		for i, p := range strings.Split(name, ".") {
 			if i > 0 {
@@ -144,11 +158,11 @@ func c15TokSexp(toks []string) string {
 }
 
 // the generator's own tree without decoration, in the oracle's ast syntax
-func (t *c15T) astSexp(local bool) string {
+func (t *c15T) astSexp(strip string) string {
 	kids := func() string {
 		var xs []string
 		for _, k := range t.Kids {
-			xs = append(xs, k.astSexp(local))
+			xs = append(xs, k.astSexp(strip))
 		}
 		return strings.Join(xs, " ")
 	}
@@ -165,8 +179,8 @@ func (t *c15T) astSexp(local bool) string {
 		return "(func " + kids() + ")"
 	}
 	name := t.Name
-	if local {
-		name = strings.TrimPrefix(name, "ext.")
+	if strip != "" {
+		name = strings.TrimPrefix(name, strip)
 	}
 	if len(t.Kids) == 0 {
 		return "(named " + Sq(name) + ")"
@@ -378,21 +392,170 @@ var c15Positions = []string{"param", "field", "payload", "sig", "siglocal", "tar
 
 func c15MakeItem(idx int, pos string, t *c15T, variant string, rng *Rng) *c15Item {
 	it := &c15Item{Idx: idx, Pos: pos, Variant: variant}
-	if pos == "sig" || pos == "siglocal" {
+	if pos == "sig" || pos == "siglocal" || pos == "siglexer" || pos == "siglate" {
 		// the signature is the type expression: int -> T (parseTypeArrows at the top)
 		t = &c15T{K: "func", Kids: []*c15T{c15Base("int"), t}}
 	}
+	t.renumber(idx)
 	it.T = t
-	it.Toks = t.toks(0, pos == "siglocal")
+	if pos == "inst" {
+		// written as  int-><T> : an arrow component (level 1)
+		it.Toks = t.toks(1, "")
+	} else {
+		it.Toks = t.toks(0, c15Strip(pos))
+	}
 	it.Text = c15Spacing(rng, it.Toks, rng.Intn(3))
 	return it
+}
+
+// per-item names: "Fw#" -> "Fw<idx>"
+func (t *c15T) renumber(idx int) {
+	if strings.Contains(t.Name, "#") {
+		t.Name = strings.ReplaceAll(t.Name, "#", fmt.Sprint(idx))
+	}
+	for _, k := range t.Kids {
+		k.renumber(idx)
+	}
+}
+
+func (t *c15T) subst(name string, by *c15T) *c15T {
+	if t.K == "named" && t.Name == name && len(t.Kids) == 0 {
+		u := by.clone()
+		u.P = 0
+		return u
+	}
+	u := &c15T{K: t.K, Name: t.Name}
+	for _, k := range t.Kids {
+		u.Kids = append(u.Kids, k.subst(name, by))
+	}
+	return u
+}
+
+// the tree whose documented Go type is expected at the item's position
+func (it *c15Item) wantTree() *c15T {
+	if it.Scn == "inst" && it.Arg != nil {
+		return it.T.subst("T", it.Arg)
+	}
+	return it.T
+}
+
+type c15Name struct {
+	src, goName string
+	arity       int
+}
+
+var c15BaseNames = []c15Name{{"G", "G", 1}, {"R0", "R0", 0}, {"Opt", "Opt", 1}, {"Tok", "Tok", 0}, {"Pr", "Pr", 2},
+	{"ext.Box", "ext.Box", 1}, {"ext.Pair", "ext.Pair", 2}, {"ext.Plain", "ext.Plain", 0},
+	{"lexer.Tok", "lexer.Tok", 0}, {"lexer.Pr", "lexer.Pr", 2}}
+
+// the scope at the item's position as the documentation describes it: user types under their own
+// name, external types package-qualified (bare inside their own package_info block, where they hide
+// a user type of the same name), the forward-declared types of the item's group, and for an
+// instantiated generic signature the type parameter bound to the Go type of the explicit argument
+func c15Env(it *c15Item, argGo string) string {
+	var xs []string
+	add := func(n c15Name) { xs = append(xs, fmt.Sprintf("(%s %s %d)", Sq(n.src), Sq(n.goName), n.arity)) }
+	strip := c15Strip(it.Pos)
+	if strip != "" {
+		for _, n := range c15BaseNames {
+			if strings.HasPrefix(n.src, strip) {
+				add(c15Name{strings.TrimPrefix(n.src, strip), n.goName, n.arity})
+			}
+		}
+	}
+	for _, n := range c15BaseNames {
+		add(n)
+	}
+	if it.Scn == "fwd" {
+		for _, pre := range []string{"Fw", "Fx", "Rg", "Ug"} {
+			nm := fmt.Sprintf("%s%d", pre, it.Idx)
+			add(c15Name{nm, nm, 0})
+		}
+	}
+	if it.Scn == "inst" {
+		add(c15Name{"T", argGo, 0})
+	}
+	return "(" + strings.Join(xs, " ") + ")"
 }
 
 // ---------------------------------------------------------------- programs
 
 const c15Prelude = "package main\n\ntype G<T> = {V: T}\n\ntype R0 = {N: int}\n\n"
 
+const c15ScnPrelude = "package main\n\ntype G<T> = {V: T}\n\ntype R0 = {N: int}\n\ntype Opt<T> =\n  | Sm of T\n  | Nn\n\n" +
+	"type Tok = {Text: string}\n\ntype Pr<A, B> = {Fst: A; Snd: B}\n\n"
+
+// scenario programs: the user types Tok / Pr are defined BEFORE a package_info block that declares
+// external types of the same names; and-groups with forward references; generic signatures of the own
+// package instantiated by explicit type arguments
+func c15ScnSource(items []*c15Item) string {
+	var b strings.Builder
+	b.WriteString(c15ScnPrelude)
+	b.WriteString("package_info ext =\n  type Box<T>\n  type Pair<K, V>\n  type Plain\n  let Mk<T>: ()->[]T\n")
+	for _, it := range items {
+		if it.Pos == "siglocal" {
+			fmt.Fprintf(&b, "  let L%d: %s\n", it.Idx, it.Text)
+		}
+	}
+	b.WriteString("\npackage_info lexer =\n  type Tok\n  type Pr<A, B>\n  let Next: string->Tok\n")
+	for _, it := range items {
+		if it.Pos == "siglexer" {
+			fmt.Fprintf(&b, "  let X%d: %s\n", it.Idx, it.Text)
+		}
+	}
+	b.WriteString("\npackage_info sg =\n  let Dummy: int->int\n")
+	for _, it := range items {
+		if it.Pos == "sig" {
+			fmt.Fprintf(&b, "  let S%d: %s\n", it.Idx, it.Text)
+		}
+	}
+	b.WriteString("\npackage_info late =\n  type Lt\n  let Dummy: int->int\n")
+	for _, it := range items {
+		if it.Pos == "siglate" {
+			fmt.Fprintf(&b, "  let Y%d: %s\n", it.Idx, it.Text)
+		}
+	}
+	b.WriteString("\npackage_info _ =\n  let dummy0: int->int\n")
+	for _, it := range items {
+		if it.Pos == "inst" {
+			fmt.Fprintf(&b, "  let pk%d<T>: int->%s\n", it.Idx, it.Text)
+		}
+	}
+	b.WriteString("\n")
+	for _, it := range items {
+		i := it.Idx
+		switch it.Pos {
+		case "param":
+			fmt.Fprintf(&b, "let p%d (x: %s) = 0\n\n", i, it.Text)
+		case "field":
+			fmt.Fprintf(&b, "type Rc%d = {F: %s}\n\n", i, it.Text)
+		case "payload":
+			fmt.Fprintf(&b, "type Un%d =\n  | A%d of %s\n  | B%d\n\n", i, i, it.Text, i)
+		case "sig":
+			fmt.Fprintf(&b, "let k%d () = sg.S%d\n\n", i, i)
+		case "siglocal":
+			fmt.Fprintf(&b, "let k%d () = ext.L%d\n\n", i, i)
+		case "siglexer":
+			fmt.Fprintf(&b, "let k%d () = lexer.X%d\n\n", i, i)
+		case "siglate":
+			fmt.Fprintf(&b, "let k%d () = late.Y%d\n\n", i, i)
+		case "targ":
+			fmt.Fprintf(&b, "let t%d () = ext.Mk<%s> ()\n\n", i, it.Text)
+		case "inst":
+			fmt.Fprintf(&b, "let k%d () = pk%d<%s> 1\n\n", i, i, it.ArgText)
+		case "gfield":
+			fmt.Fprintf(&b, "type Rg%d = {F: %s; Z: int}\nand Fw%d = {N: int}\nand Fx%d = {M: string}\n\n", i, it.Text, i, i)
+		case "gpayload":
+			fmt.Fprintf(&b, "type Ug%d =\n  | A%d of %s\n  | B%d\nand Fw%d = {N: int}\nand Fx%d = {M: string}\n\n", i, i, it.Text, i, i, i)
+		}
+	}
+	return b.String()
+}
+
 func c15Source(items []*c15Item) string {
+	if len(items) > 0 && items[0].Scn != "" {
+		return c15ScnSource(items)
+	}
 	var b strings.Builder
 	b.WriteString(c15Prelude)
 	b.WriteString("package_info ext =\n  type Box<T>\n  type Pair<K, V>\n  type Plain\n  let Mk<T>: ()->[]T\n")
@@ -492,7 +655,11 @@ func (g *c15Go) typeText(it *c15Item) (string, bool) {
 		return field(fmt.Sprintf("Rc%d", it.Idx), "F")
 	case "payload":
 		return field(fmt.Sprintf("Un%d_A%d", it.Idx, it.Idx), "Value")
-	case "sig", "siglocal":
+	case "gfield":
+		return field(fmt.Sprintf("Rg%d", it.Idx), "F")
+	case "gpayload":
+		return field(fmt.Sprintf("Ug%d_A%d", it.Idx, it.Idx), "Value")
+	case "sig", "siglocal", "siglexer", "siglate", "inst":
 		fd := g.funcs[fmt.Sprintf("k%d", it.Idx)]
 		if fd == nil {
 			return "", false
@@ -580,7 +747,7 @@ func c15Observe(srv *FcSrv, items []*c15Item) []c15Obs {
 
 // the property itself on one item, independent of the model: "" when it holds
 func c15Property(it *c15Item, o c15Obs) string {
-	want := it.T.docGo()
+	want := it.wantTree().docGo()
 	if !o.ok {
 		return o.reason
 	}
@@ -590,12 +757,21 @@ func c15Property(it *c15Item, o c15Obs) string {
 	if c15Canon(o.text) == c15Canon(want) {
 		return fmt.Sprintf("type text differs from the documented form in formatting only: got %q, documented %q", o.text, want)
 	}
-	return fmt.Sprintf("%s is emitted as %q, the documented Go type is %q", it.Text, o.text, want)
+	ctx := ""
+	switch it.Scn {
+	case "shadow":
+		ctx = " (user types Tok / Pr defined before a package_info block declaring lexer.Tok / lexer.Pr; position " + it.Pos + ")"
+	case "fwd":
+		ctx = fmt.Sprintf(" (in a type ... and ... group, Fw%d / Fx%d defined later in the group; position %s)", it.Idx, it.Idx, it.Pos)
+	case "inst":
+		ctx = " (generic package_info signature instantiated with the explicit type argument T = " + it.ArgText + ")"
+	}
+	return fmt.Sprintf("%s is emitted as %q, the documented Go type is %q%s", it.Text, o.text, want, ctx)
 }
 
 func c15Shrink(srv *FcSrv, it *c15Item, rng *Rng) *c15Item {
 	inner := func(x *c15Item) *c15T {
-		if x.Pos == "sig" || x.Pos == "siglocal" {
+		if x.Pos == "sig" || x.Pos == "siglocal" || x.Pos == "siglexer" || x.Pos == "siglate" {
 			return x.T.Kids[1]
 		}
 		return x.T
@@ -605,6 +781,7 @@ func c15Shrink(srv *FcSrv, it *c15Item, rng *Rng) *c15Item {
 			return nil
 		}
 		cand := c15MakeItem(it.Idx, it.Pos, t.clone(), it.Variant, rng)
+		cand.Scn, cand.Arg, cand.ArgText = it.Scn, it.Arg, it.ArgText
 		cand.Text = strings.Join(cand.Toks, "")
 		if strings.Contains(cand.Text, "-->") { // never: tokens are joined without spaces
 			return nil
@@ -684,6 +861,13 @@ func runC15(c *Ctx) {
 		"(qualified and package-local names) / explicit type argument, and with redundant parentheses in each position (thorough) " +
 		"or in 2 of the 6 positions in rotation (quick); the depth-3 and random types take 2 of the 6 positions in rotation for each " +
 		"parenthesisation; random token spacing; " +
+		"scenario families (own programs, expectations from the model with the names resolved as documented and from the independent Go rendering): " +
+		"(i) user types Tok / Pr<A,B> defined BEFORE a package_info block declaring external lexer.Tok / lexer.Pr<A,B>, then used (next to the qualified external ones) " +
+		"in param / field / payload / signature / signature in a later package_info block / signature inside the lexer block (bare names = the block's own types) / type argument; " +
+		"(ii) record field and union payload in type ... and ... groups mentioning types defined later in the group or the type itself, directly, in slices / tuples / " +
+		"function types, in the arguments of user generics (record G, Pr, union Opt) and external generics; (iii) one generic (user record, user union, external) mentioned " +
+		"twice with different arguments or nested in itself, in and-groups and in generic signatures of the own package instantiated by explicit type arguments; " +
+		"shapes the unchanged tree is known to get wrong are a separate hazard stream; " +
 		"non-trivial = at least one constructor; distinct by (position, source text)"
 	c.Res.Exhaustive = true
 	var types []*c15T
@@ -738,24 +922,42 @@ func runC15(c *Ctx) {
 			}
 		}
 	}
+	nMain := len(items)
+	items = append(items, c15Scenarios(c, rng, len(items))...)
 	if c.Replay != "" {
 		items = c15LoadReplay(c.Replay)
+		nMain = 0
+		if items[0].Scn == "" {
+			nMain = len(items)
+		}
 	}
 	c.Lap("generate")
 
-	// batches through the in-process servers
+	// batches through the in-process servers (plain items and scenario items use different programs)
 	batch := 150
 	if v := os.Getenv("C15_BATCH"); v != "" {
 		fmt.Sscanf(v, "%d", &batch)
 	}
-	nb := (len(items) + batch - 1) / batch
-	obs := make([]c15Obs, len(items))
-	pool := c.NewFcPool(8)
-	Parallel(nb, func(bi int) {
-		lo, hi := bi*batch, (bi+1)*batch
+	var ranges [][2]int
+	for lo := 0; lo < nMain; lo += batch {
+		hi := lo + batch
+		if hi > nMain {
+			hi = nMain
+		}
+		ranges = append(ranges, [2]int{lo, hi})
+	}
+	for lo := nMain; lo < len(items); lo += batch {
+		hi := lo + batch
 		if hi > len(items) {
 			hi = len(items)
 		}
+		ranges = append(ranges, [2]int{lo, hi})
+	}
+	nb := len(ranges)
+	obs := make([]c15Obs, len(items))
+	pool := c.NewFcPool(8)
+	Parallel(nb, func(bi int) {
+		lo, hi := ranges[bi][0], ranges[bi][1]
 		s := pool.Get()
 		defer pool.Put(s)
 		copy(obs[lo:hi], c15Observe(s, items[lo:hi]))
@@ -770,10 +972,7 @@ func runC15(c *Ctx) {
 	procBatches := rng.Perm(nb)[:nproc]
 	Parallel(len(procBatches), func(k int) {
 		bi := procBatches[k]
-		lo, hi := bi*batch, (bi+1)*batch
-		if hi > len(items) {
-			hi = len(items)
-		}
+		lo, hi := ranges[bi][0], ranges[bi][1]
 		dir := filepath.Join(c.Work, fmt.Sprintf("proc%d", bi))
 		os.MkdirAll(dir, 0o755)
 		defer os.RemoveAll(dir)
@@ -803,6 +1002,7 @@ func runC15(c *Ctx) {
 	shrinkSrv := pool.Get()
 	defer func() { pool.Put(shrinkSrv); pool.Close() }()
 	nprop, ncorr := 0, 0
+	hazSamples := map[string]int{}
 	// render is injective on unit-free types (checked dynamically; not proved): Go text -> model tree
 	seenText := map[string]string{}
 	for i, it := range items {
@@ -813,27 +1013,35 @@ func runC15(c *Ctx) {
 		c.Count(fmt.Sprintf("depth=%d", it.T.depth()))
 		c.Count("top=" + it.T.K)
 		if i%9973 == 17 {
-			c.Sample(map[string]any{"position": it.Pos, "type": it.Text, "go": o.text, "documented": it.T.docGo()})
+			c.Sample(map[string]any{"position": it.Pos, "type": it.Text, "go": o.text, "documented": it.wantTree().docGo()})
 		}
-		local := it.Pos == "siglocal"
-		env := c15EnvGlobal
-		if local {
-			env = c15EnvLocal
+		strip := c15Strip(it.Pos)
+		if it.Scn != "" {
+			c.Count("scenario=" + it.Scn)
 		}
-		ans := or.Ask("C15", fmt.Sprintf("(type %s %s)", env, c15TokSexp(it.Toks)))
+		argGo := ""
+		if it.Scn == "inst" {
+			// the type parameter is bound to the Go type of the explicit argument (rendered by the model)
+			_, argGo, _ = c15ParseAnswer(or.Ask("C15", fmt.Sprintf("(type %s %s)", c15Env(&c15Item{Pos: "param"}, ""), c15TokSexp(it.Arg.toks(0, "")))))
+		}
+		ans := or.Ask("C15", fmt.Sprintf("(type %s %s)", c15Env(it, argGo), c15TokSexp(it.Toks)))
 		c.Compared(1)
-		modelOK, modelText, modelAst := false, "", ""
-		if strings.HasPrefix(ans, "OK ") {
-			rest := ans[3:]
-			// "<quoted>" <ast> <n>
-			q := c15QuotedPrefix(rest)
-			modelText = Unsq(q)
-			tail := strings.TrimSpace(rest[len(q):])
-			sp := strings.LastIndex(tail, " ")
-			modelAst = tail[:sp]
-			modelOK = tail[sp+1:] == "0"
+		modelOK, modelText, modelAst := c15ParseAnswer(ans)
+		if haz := c15Hazard(it); haz != "" {
+			// shapes the unchanged tree is known to get wrong (reported): not part of the main stream
+			if c15Property(it, o) != "" {
+				c.Known(haz)
+				c.Count("hazard_still_failing=" + haz)
+				if hazSamples[haz] < 2 {
+					hazSamples[haz]++
+					c.Note("hazard %s: %s", haz, c15Property(it, o))
+				}
+			} else {
+				c.Count("hazard_passing=" + haz)
+			}
+			continue
 		}
-		if modelOK && !strings.Contains(modelAst, "unit") {
+		if it.Scn == "" && modelOK && !strings.Contains(modelAst, "unit") {
 			key := it.Pos[:3] + "|" + modelText // siglocal resolves names differently: same first letters "sig"
 			astG := strings.ReplaceAll(modelAst, "(named \"Box\"", "(named \"ext.Box\"")
 			astG = strings.ReplaceAll(strings.ReplaceAll(astG, "(named \"Pair\"", "(named \"ext.Pair\""), "(named \"Plain\"", "(named \"ext.Plain\"")
@@ -850,8 +1058,8 @@ func runC15(c *Ctx) {
 		switch {
 		case !modelOK:
 			disagree = "the model rejects the type expression or leaves tokens: " + ans
-		case modelAst != it.T.astSexp(local):
-			disagree = "the model parses " + it.Text + " as " + modelAst + ", the generator meant " + it.T.astSexp(local)
+		case modelAst != it.T.astSexp(strip):
+			disagree = "the model parses " + it.Text + " as " + modelAst + ", the generator meant " + it.T.astSexp(strip)
 		case !o.ok:
 			disagree = "the model accepts, fc: " + o.reason
 		case o.text != modelText:
@@ -862,6 +1070,9 @@ func runC15(c *Ctx) {
 		}
 		if bad != "" {
 			c.Count("property_failures")
+			if it.Scn != "" && nprop < 40 {
+				c.Note("scenario failure: %s", bad)
+			}
 			nprop++
 			if nprop > 3 {
 				continue
@@ -869,7 +1080,7 @@ func runC15(c *Ctx) {
 			small := c15Shrink(shrinkSrv, it, rng)
 			so := c15Observe(shrinkSrv, []*c15Item{small})[0]
 			c.Violate("prop", c15Property(small, so), map[string]any{"item": small, "source": c15Source([]*c15Item{small}),
-				"go_type_text": so.text, "documented": small.T.docGo(), "first_failing_item": it, "model": ans}, false)
+				"go_type_text": so.text, "documented": small.wantTree().docGo(), "first_failing_item": it, "model": ans}, false)
 		} else if disagree != "" {
 			ncorr++
 			if ncorr > 3 {
@@ -882,6 +1093,309 @@ func runC15(c *Ctx) {
 	}
 	c.Lap("compare")
 }
+
+// OK "<go type>" <ast> <remaining tokens>
+func c15ParseAnswer(ans string) (ok bool, text string, ast string) {
+	if !strings.HasPrefix(ans, "OK ") {
+		return false, "", ""
+	}
+	rest := ans[3:]
+	q := c15QuotedPrefix(rest)
+	text = Unsq(q)
+	tail := strings.TrimSpace(rest[len(q):])
+	sp := strings.LastIndex(tail, " ")
+	return tail[sp+1:] == "0", text, tail[:sp]
+}
+
+// ---------------------------------------------------------------- scenario families
+
+func c15Named(name string, kids ...*c15T) *c15T { return &c15T{K: "named", Name: name, Kids: kids} }
+func c15Slice(k *c15T) *c15T                    { return &c15T{K: "slice", Kids: []*c15T{k}} }
+func c15Tup(ks ...*c15T) *c15T                  { return &c15T{K: "tuple", Kids: ks} }
+func c15Fun(ks ...*c15T) *c15T                  { return &c15T{K: "func", Kids: ks} }
+
+func (t *c15T) mentions(name string) bool {
+	if t.K == "named" && t.Name == name {
+		return true
+	}
+	for _, k := range t.Kids {
+		if k.mentions(name) {
+			return true
+		}
+	}
+	return false
+}
+
+func (t *c15T) hasVar() bool {
+	if t.K == "named" && len(t.Kids) == 0 && (t.Name == "T" || strings.HasPrefix(t.Name, "Fw") || strings.HasPrefix(t.Name, "Fx") ||
+		strings.HasPrefix(t.Name, "Rg") || strings.HasPrefix(t.Name, "Ug")) {
+		return true
+	}
+	for _, k := range t.Kids {
+		if k.hasVar() {
+			return true
+		}
+	}
+	return false
+}
+
+// argument lists (as s-expressions) of every mention of the generic [name]
+func (t *c15T) argLists(name string, out *[]string) {
+	if t.K == "named" && t.Name == name && len(t.Kids) > 0 {
+		var xs []string
+		for _, k := range t.Kids {
+			xs = append(xs, k.astSexp(""))
+		}
+		*out = append(*out, strings.Join(xs, " "))
+	}
+	for _, k := range t.Kids {
+		k.argLists(name, out)
+	}
+}
+
+// a variable (forward reference / type parameter) inside the arguments of a user generic (G, Pr, Opt)
+// that is itself inside the arguments of a user generic
+func (t *c15T) deepVar(depth int) bool {
+	user := t.K == "named" && len(t.Kids) > 0 && (t.Name == "G" || t.Name == "Pr" || t.Name == "Opt")
+	if user {
+		depth++
+	}
+	if depth >= 2 && t.K == "named" && len(t.Kids) == 0 && t.hasVar() {
+		return true
+	}
+	for _, k := range t.Kids {
+		if k.deepVar(depth) {
+			return true
+		}
+	}
+	return false
+}
+
+func (t *c15T) nestedIn(name string, inside bool) bool {
+	here := t.K == "named" && t.Name == name && len(t.Kids) > 0
+	if here && inside {
+		return true
+	}
+	for _, k := range t.Kids {
+		if k.nestedIn(name, inside || here) {
+			return true
+		}
+	}
+	return false
+}
+
+// Shapes the unchanged tree gets wrong (kept out of the main stream, reported to the lead):
+//   - a generic user UNION mentioned twice with different type arguments in a type expression that needs
+//     a substitution (forward reference in an and-group, or a type parameter bound by an explicit type
+//     argument): the later mention keeps the placeholder / type parameter (Opt[_P6], Opt[[]T]);
+//   - a forward reference / type parameter inside the arguments of a user generic (record or union) that is
+//     itself inside the arguments of a user generic: Opt<G<Fw>>, G<Opt<Fw>>, Opt<Opt<Fw>>, G<G<ext.Box<Fw>>>,
+//     ext.Box<G<G<Fw>>>, G<Pr<int, ext.Box<Fw>>> keep the placeholder _P<n> in and-groups; G<G<T>> keeps T in an
+//     instantiated signature and the caller becomes generic (func k[T0 any]() G[G[T0]]).  (G<G<Fw>> itself passes.)
+func c15Hazard(it *c15Item) string {
+	if it.Scn != "fwd" && it.Scn != "inst" {
+		return ""
+	}
+	if !it.T.hasVar() {
+		return ""
+	}
+	var opts []string
+	it.T.argLists("Opt", &opts)
+	for i := 1; i < len(opts); i++ {
+		if opts[i] != opts[0] {
+			return "C15-generic-union-twice-under-substitution"
+		}
+	}
+	if it.T.deepVar(0) {
+		return "C15-nested-user-generics-under-substitution"
+	}
+	return ""
+}
+
+func c15Scenarios(c *Ctx, rng *Rng, start int) []*c15Item {
+	var items []*c15Item
+	idx := start
+	add := func(scn, pos string, t *c15T, arg *c15T, redundant bool) {
+		u := t.clone()
+		variant := "minimal"
+		if redundant {
+			variant = "redundant"
+			u.decorate(rng, rng.Chance(1, 4))
+			if u.size() == t.size() {
+				u.P = 1
+			}
+		}
+		it := c15MakeItem(idx, pos, u, variant, rng)
+		it.Scn = scn
+		if arg != nil {
+			it.Arg = arg.clone()
+			it.ArgText = strings.Join(it.Arg.toks(0, ""), "")
+		}
+		idx++
+		items = append(items, it)
+	}
+	base := func(n string) *c15T { return c15Base(n) }
+
+	// (i) user types Tok / Pr<A,B> defined before package_info lexer declares lexer.Tok / lexer.Pr<A,B>:
+	//     every position after that block; Tok is the user's type, lexer.Tok the external one
+	leaves := []*c15T{base("int"), base("string"), c15Named("Tok"), c15Named("lexer.Tok"), c15Named("R0")}
+	var d1 []*c15T
+	for _, l := range leaves {
+		d1 = append(d1, l)
+	}
+	un := []func(*c15T) *c15T{c15Slice, func(k *c15T) *c15T { return c15Named("G", k) }, func(k *c15T) *c15T { return c15Named("ext.Box", k) },
+		func(k *c15T) *c15T { return c15Named("Opt", k) }}
+	bin := []func(a, b *c15T) *c15T{func(a, b *c15T) *c15T { return c15Tup(a, b) }, func(a, b *c15T) *c15T { return c15Fun(a, b) },
+		func(a, b *c15T) *c15T { return c15Named("Pr", a, b) }, func(a, b *c15T) *c15T { return c15Named("lexer.Pr", a, b) },
+		func(a, b *c15T) *c15T { return c15Named("ext.Pair", a, b) }}
+	for _, f := range un {
+		for _, l := range leaves {
+			d1 = append(d1, f(l))
+		}
+	}
+	for _, f := range bin {
+		for _, a := range leaves {
+			for _, b := range leaves {
+				d1 = append(d1, f(a, b))
+			}
+		}
+	}
+	shadow := append([]*c15T{}, d1...)
+	for i := 0; i < c.Pick(150, 1200); i++ { // depth 2: a constructor over depth-1 types
+		a, b := d1[rng.Intn(len(d1))], d1[rng.Intn(len(d1))]
+		if rng.Bool() {
+			shadow = append(shadow, un[rng.Intn(len(un))](a))
+		} else {
+			shadow = append(shadow, bin[rng.Intn(len(bin))](a, b))
+		}
+	}
+	poss := []string{"param", "field", "payload", "sig", "siglate", "siglexer", "targ"}
+	for ti, t := range shadow {
+		if !t.mentions("Tok") && !t.mentions("Pr") && !t.mentions("lexer.Tok") && !t.mentions("lexer.Pr") {
+			continue
+		}
+		for pi, pos := range poss {
+			if pos == "siglexer" && (t.mentions("Tok") || t.mentions("Pr")) {
+				continue // inside package_info lexer the bare names are the block's own types
+			}
+			if !c.Thorough() && t.depth() >= 2 && (ti+pi)%3 != 0 {
+				continue
+			}
+			add("shadow", pos, t, nil, false)
+			if (ti+pi)%4 == 0 {
+				add("shadow", pos, t, nil, true)
+			}
+		}
+	}
+
+	// (ii) record field / union payload in a type ... and ... group mentioning types defined LATER in the
+	//      group (Fw#, Fx#) or the type being defined: directly, in slices / tuples / function types, in the
+	//      type arguments of user generics (record G, union Opt, Pr) and of external generics
+	fw, fx := c15Named("Fw#"), c15Named("Fx#")
+	fl := []*c15T{fw, fx, base("int"), c15Named("R0"), c15Named("Tok")}
+	var g1 []*c15T
+	g1 = append(g1, fw, fx)
+	unG := append(un, func(k *c15T) *c15T { return c15Named("ext.Box", c15Slice(k)) })
+	for _, f := range unG {
+		for _, l := range fl {
+			g1 = append(g1, f(l))
+		}
+	}
+	for _, f := range bin {
+		for _, a := range fl {
+			for _, b := range fl {
+				g1 = append(g1, f(a, b))
+			}
+		}
+	}
+	fwd := append([]*c15T{}, g1...)
+	for i := 0; i < c.Pick(250, 2500); i++ {
+		a, b := g1[rng.Intn(len(g1))], g1[rng.Intn(len(g1))]
+		if rng.Bool() {
+			fwd = append(fwd, unG[rng.Intn(len(unG))](a))
+		} else {
+			fwd = append(fwd, bin[rng.Intn(len(bin))](a, b))
+		}
+	}
+	// (iii) the same generic mentioned twice with different arguments, forward-reference variant
+	twice := func(v *c15T) []*c15T {
+		var out []*c15T
+		args := []*c15T{v, c15Slice(v), c15Tup(v, base("int")), base("int"), c15Fun(v, base("bool")), c15Named("ext.Box", v)}
+		gens := []func(*c15T) *c15T{func(k *c15T) *c15T { return c15Named("G", k) }, func(k *c15T) *c15T { return c15Named("Opt", k) },
+			func(k *c15T) *c15T { return c15Named("ext.Box", k) }, func(k *c15T) *c15T { return c15Named("Pr", k, base("int")) },
+			func(k *c15T) *c15T { return c15Named("ext.Pair", base("string"), k) }}
+		for _, g := range gens {
+			for i, a1 := range args {
+				for j, a2 := range args {
+					if i == j || (!a1.mentionsAny(v) && !a2.mentionsAny(v)) {
+						continue
+					}
+					out = append(out, c15Tup(g(a1), g(a2)), c15Fun(g(a1), g(a2)), c15Named("ext.Pair", g(a1), g(a2)),
+						c15Tup(c15Slice(g(a1)), base("int"), g(a2)))
+				}
+				if a1.mentionsAny(v) {
+					out = append(out, g(g(a1)), c15Slice(g(c15Tup(g(a1), base("int")))))
+				}
+			}
+		}
+		return out
+	}
+	fwd = append(fwd, twice(fw)...)
+	for ti, t := range fwd {
+		if !t.hasVar() {
+			continue
+		}
+		for pi, pos := range []string{"gfield", "gpayload"} {
+			if !c.Thorough() && ti >= len(g1) && (ti+pi)%2 != 0 {
+				continue
+			}
+			add("fwd", pos, t, nil, false)
+			if (ti+pi)%5 == 0 {
+				add("fwd", pos, t, nil, true)
+			}
+		}
+	}
+	// self reference of the type being defined
+	for _, pos := range []string{"gfield", "gpayload"} {
+		self := "Rg#"
+		if pos == "gpayload" {
+			self = "Ug#"
+		}
+		for _, t := range []*c15T{c15Slice(c15Named(self)), c15Named("G", c15Named(self)), c15Named("ext.Box", c15Slice(c15Named(self))),
+			c15Fun(c15Named(self), fw), c15Tup(c15Slice(c15Named(self)), fx)} {
+			add("fwd", pos, t, nil, false)
+		}
+	}
+
+	// (iii) generic signatures of the own package instantiated by an explicit type argument
+	tv := c15Named("T")
+	argsT := []*c15T{base("string"), c15Slice(base("int")), c15Named("R0"), c15Tup(base("int"), base("string")), c15Named("G", base("int")),
+		c15Named("Tok"), c15Named("ext.Box", base("bool")), c15Fun(base("int"), base("string"))}
+	inst := twice(tv)
+	for _, f := range un {
+		inst = append(inst, f(tv), f(c15Slice(tv)))
+	}
+	for _, f := range bin {
+		inst = append(inst, f(tv, base("int")), f(c15Slice(tv), tv))
+	}
+	inst = append(inst, tv, c15Slice(c15Tup(tv, tv)))
+	for ti, t := range inst {
+		n := 1
+		if c.Thorough() {
+			n = 3
+		}
+		for k := 0; k < n; k++ {
+			add("inst", "inst", t, argsT[(ti+k*3)%len(argsT)], false)
+		}
+		if ti%6 == 0 {
+			add("inst", "inst", t, argsT[(ti+1)%len(argsT)], true)
+		}
+	}
+	c.CountN("scenario_items", len(items))
+	return items
+}
+
+func (t *c15T) mentionsAny(v *c15T) bool { return t.mentions(v.Name) }
 
 func c15QuotedPrefix(s string) string {
 	// s starts with a quoted string; return it including the quotes
